@@ -12,14 +12,14 @@ from driver import Bounded, Property
 
 SCHEMA = Bounded(
     "all_message_types_valid_instances_and_single_faults", "c15_schema",
-    {"instances": 2, "cap": 3, "permutations": 1}, {"instances": 12, "cap": 12, "permutations": 4},
+    {"instances": 2, "cap": 3, "permutations": 1}, {"instances": 60, "cap": 30, "permutations": 6},
     "the real FIXSchema (tests/FIX44.xml: 93 message types, tests/TT-FIX44.xml: 40) against an independent reading of the "
-    "XML: per message type 2 (thorough 12) randomly populated valid instances (all / some / no optional members, groups "
+    "XML: per message type 2 (thorough 60) randomly populated valid instances (all / some / no optional members, groups "
     "of 1-2 items in dictionary order starting with the first member, nesting to depth 3) must validate; every "
     "single-fault class (missing required field / group, unknown tag, tag not allowed in the message, value outside "
     "enumeration / type, plain field as group, group as plain value, members out of order, first member missing, foreign "
-    "member, required member / nested group missing - the group faults at every depth) at up to 3 (12) positions each must "
-    "be rejected with FIXMessageError and nothing else; the same verdicts with the <components> children shuffled (1 (4) "
+    "member, required member / nested group missing - the group faults at every depth) at up to 3 (30) positions each must "
+    "be rejected with FIXMessageError and nothing else; the same verdicts with the <components> children shuffled (1 (6) "
     "permutations)")
 
 TASKS = c19.TASKS
